@@ -291,6 +291,8 @@ func mergeRun(m, h *HarnessRun) {
 	m.Infeasible += h.Infeasible
 	m.Budget += h.Budget
 	m.UnwindFail += h.UnwindFail
+	m.Stops += h.Stops
+	m.StopMsgs = append(m.StopMsgs, h.StopMsgs...)
 	for k, v := range h.Unsupported {
 		m.Unsupported[k] += v
 	}
